@@ -480,7 +480,7 @@ func c03(run *core.Run, replay string) {
 	for i := range tcs {
 		cases[i] = tcs[i]
 	}
-	results := core.RunIsolated("c03", cases, core.IsoOpts{Workers: 14, CPUBudget: 120 * time.Second, WallBudget: 30 * time.Minute})
+	results := core.RunIsolated("c03", cases, core.IsoOpts{Workers: 12, CPUBudget: 120 * time.Second, WallBudget: 30 * time.Minute})
 	if len(serial) > 0 {
 		sc := make([]any, len(serial))
 		for i := range serial {
